@@ -809,7 +809,15 @@ let () =
                           (match diff_canon (canon w) ci with Some s -> s | None -> "device request " ^ String.concat ";" (List.map (fun (DevSet (t, c, term, _, r, a)) -> s_req (t, c, term, r, a)) (devlog w))))
          end
        | None -> ())
-    | [ "p2.end"; hid; q; nb; gets; steps; noops ] ->
+    | "p2.end" :: hid :: q :: nb :: gets :: steps :: noops :: rest ->
+      (* C07: a history with interrupted reconciles ends like its crash-free twin (same scenario, no interruption) *)
+      (match rest with
+       | [ sum; twin ] when twin <> "-" ->
+         stat "c07.twin_compared";
+         if sum <> twin then
+           specviol hid "c07_outcome_differs_from_crash_free_run" (Printf.sprintf "with interruptions: %s ; crash-free: %s"
+             (if String.length sum > 600 then String.sub sum 0 600 else sum) (if String.length twin > 600 then String.sub twin 0 600 else twin))
+       | _ -> ());
       let h = hist_of hid in
       stat "histories";
       statn "steps.total" (int_of_string steps);
